@@ -630,7 +630,8 @@ impl<const N: usize> crate::Protocol for Rec<N> {
     }
 }
 struct Dummy;
-impl Session for Dummy { fn send(&self, _m: Message, _ma: Arc<Machine>) -> Result<(), SendError> { Ok(()) } }
+static SENT: Mutex<Vec<Vec<u8>>> = Mutex::new(Vec::new());
+impl Session for Dummy { fn send(&self, m: Message, _ma: Arc<Machine>) -> Result<(), SendError> { SENT.lock().unwrap().push(m.to_vec()); Ok(()) } }
 '''
 
 
@@ -777,6 +778,28 @@ def demux_drop_native_replay(v):
         L.append('    let mut control = Control::new(); control.insert(iph);')
         L.append('    let r = std::panic::catch_unwind(std::panic::AssertUnwindSafe(|| crate::Protocol::demux(&*udp, Message::new(raw.clone()), Arc::new(Dummy), control, machine.clone())));')
         L.append('    let wellformed = raw.len() >= 8 && (((raw[4] as usize) << 8) | raw[5] as usize) == raw.len() && raw[6] == 0 && raw[7] == 0;')
+    elif layer == 'tcp':
+        src, dst = g('src') & 0xffffffff, g('dst') & 0xffffffff
+        L.append('    let tcp = crate::protocols::tcp::Tcp::new(); SENT.lock().unwrap().clear();')
+        L.append(f'    let iph = Ipv4Header {{ ihl: 5, type_of_service: TypeOfService::from(0u8), total_length: {20 + n}, identification: 1, fragment_offset: 0, flags: ControlFlags::new(true, true), time_to_live: 9, protocol: 6, checksum: 0, source: Ipv4Address::from({src}u32), destination: Ipv4Address::from({dst}u32) }};')
+        L.append('    let mut control = Control::new(); control.insert(iph);')
+        L.append('    let r = std::panic::catch_unwind(std::panic::AssertUnwindSafe(|| crate::Protocol::demux(&tcp, Message::new(raw.clone()), Arc::new(Dummy), control, machine.clone())));')
+        L.append('    let wellformed = raw.len() >= 20 && (raw[12] >> 4) == 5;')
+        L.append('    if !SENT.lock().unwrap().is_empty() && !wellformed { bad.push("a segment that does not decode was answered".into()); }')
+    elif layer == 'arp':
+        T = ['#[test]\nfn mirx_replay_0() {', '    println!("\\nREPLAY-BEGIN mirx_replay_0");',
+             '    struct Dummy; impl crate::Session for Dummy { fn send(&self, _m: crate::Message, _ma: std::sync::Arc<crate::Machine>) -> Result<(), crate::session::SendError> { Ok(()) } }',
+             f'    let raw: Vec<u8> = vec!{raw}; let arp = super::Arp::new(); let machine = std::sync::Arc::new(crate::Machine::new());',
+             '    let r = std::panic::catch_unwind(std::panic::AssertUnwindSafe(|| crate::Protocol::demux(&arp, crate::Message::new(raw.clone()), std::sync::Arc::new(Dummy), crate::Control::new(), machine.clone())));',
+             '    let wellformed = raw.len() >= 28 && raw[6] == 0 && (raw[7] == 1 || raw[7] == 2);',
+             '    let changed = arp.arp_table.table.len() > 0;',
+             '    let res = if r.is_err() { "demux panicked".to_string() } else if changed && !wellformed { "a frame that does not decode changed the ARP table".to_string() } else { "AGREE".to_string() };',
+             '    println!("OP 0 RESULT {}", res);', '}']
+        out, rc = native.run_tests('\n'.join(T), append_to='src/protocols/arp.rs', test_filter='mirx_replay_0')
+        lines = native.op_lines(out)
+        if not lines:
+            return False, 'native replay did not run: ' + out[-600:]
+        return ('AGREE' not in lines[0]), lines[0]
     elif layer == 'dhcp-client':
         L.append('    let app = crate::protocols::dhcp::dhcp_client::DhcpClient::new(Ipv4Address::from(0x0a000001u32)); let control = Control::new();')
         L.append('    let r = std::panic::catch_unwind(std::panic::AssertUnwindSafe(|| crate::Protocol::demux(&app, Message::new(raw.clone()), Arc::new(Dummy), control, machine.clone())));')
@@ -832,8 +855,8 @@ def demux_drop_part(ctx):
     return generic_part(
         ctx, 'drop-at-layer', udpspec.malformed_units(ctx.tier), udpspec.worker,
         unit_name=lambda u: f'{u["layer"]} demux on {u["nbytes"]} arbitrary bytes',
-        unit_desc='real Udp::demux / Ipv4::demux / DhcpClient::demux / DhcpServer::demux MIR with the real header decoders and the real Message on arbitrary symbolic bytes; machine, Control, DashMap and applications modelled',
+        unit_desc='real Udp::demux / Ipv4::demux / Tcp::demux (no session, no listener) / Arp::demux (no local address) / DhcpClient::demux / DhcpServer::demux MIR with the real header decoders and the real Message on arbitrary symbolic bytes; machine, Control, DashMap and applications modelled',
         replay_fn=demux_drop_native_replay,
-        bounds='UDP layer: 0/7/8/10 (thorough 0,1,4,7,8,9,12) arbitrary bytes with one wildcard binding on a symbolic port; IPv4 layer: 0/19/20/22 (thorough up to 24) arbitrary bytes, no binding; DHCP client and server: 0/31 (thorough 0,1,16,30,31) arbitrary bytes - every such payload is shorter than the shortest DHCP message of this codec (32 bytes)',
-        outside='DHCP payloads of 32 bytes or more (they can decode; the handlers then need RwLock, String and the session send path); TCP and ARP demux (Tcp::demux spawns sessions, Arp::demux replies through Pci: async environment); "the simulation keeps running" (runtime)',
+        bounds='UDP layer: 0/7/8/10 (thorough 0,1,4,7,8,9,12) arbitrary bytes with one wildcard binding on a symbolic port; IPv4 layer: 0/19/20/22 (thorough up to 24) arbitrary bytes, no binding; TCP layer: 0/19/20/23 (thorough up to 24) arbitrary bytes, no session and no listener (the segment is refused, a reset is sent only for a decodable header); ARP: 0/27/28 (thorough up to 30) arbitrary bytes, the ARP table may change only for a packet that decodes; DHCP client and server: 0/31 (thorough 0,1,16,30,31) arbitrary bytes - every such payload is shorter than the shortest DHCP message of this codec (32 bytes)',
+        outside='DHCP payloads of 32 bytes or more (they can decode; the handlers then need RwLock, String and the session send path); Tcp::demux with a listener or an existing session (it spawns session tasks), Arp::demux answering a request for a local address (it replies through Pci) (Tcp::demux spawns sessions, Arp::demux replies through Pci: async environment); "the simulation keeps running" (runtime)',
         assumptions=['environment as in the C04 part (Machine lookup, Control, DashMap, recording applications modelled)'])
